@@ -1,5 +1,5 @@
 use std::io;
-use std::sync::atomic::{AtomicUsize, Ordering};
+use std::sync::atomic::{AtomicBool, AtomicUsize, Ordering};
 use std::sync::Arc;
 use std::thread;
 
@@ -28,6 +28,11 @@ pub fn trigger_cancel_panic() -> ! {
     // so that we can avoid the re-panic problem?
     // currently this is not used in any drop implementation
     // current_cancel_data().state.store(0, Ordering::Release);
+    if crate::coroutine_impl::is_coroutine() {
+        // tell guards dropped by this unwind that it is the cancellation, not a panic of the user code
+        let cancel = crate::coroutine_impl::current_cancel_data();
+        cancel.unwinding.store(true, Ordering::Relaxed);
+    }
     std::panic::panic_any(Error::Cancel);
 }
 
@@ -63,6 +68,8 @@ pub struct CancelImpl<T: CancelIo> {
     // first bit is used when need to cancel the coroutine
     // higher bits are used to disable the cancel
     state: AtomicUsize,
+    // set when the Cancel panic has been raised: the stack is unwinding because of the cancel
+    unwinding: AtomicBool,
     // the io data when the coroutine is suspended
     io: T,
     // other suspended type would register the co itself
@@ -82,6 +89,7 @@ impl<T: CancelIo> CancelImpl<T> {
     pub fn new() -> Self {
         CancelImpl {
             state: AtomicUsize::new(0),
+            unwinding: AtomicBool::new(false),
             io: T::new(),
             co: AtomicOption::none(),
         }
@@ -90,6 +98,11 @@ impl<T: CancelIo> CancelImpl<T> {
     // judge if the coroutine cancel flag is set
     pub fn is_canceled(&self) -> bool {
         self.state.load(Ordering::Acquire) == 1
+    }
+
+    // judge if the coroutine is unwinding its stack because of the Cancel panic
+    pub fn is_unwinding(&self) -> bool {
+        self.unwinding.load(Ordering::Relaxed)
     }
 
     // return if the coroutine cancel is disabled
